@@ -46,3 +46,9 @@ package sm2ec
 //@   ensures err != nil <==> ghost(ptv, self) == PINF()
 //@   fresh result0
 //@   modifies nothing
+
+// inverse modulo the group order (ORDINV abstract)
+//@ func P256OrdInverse trusted
+//@   ensures err == nil ==> len(result0) == 32 && BEV(arr(result0), offof(result0), 32) == ORDINV(BEV(arr(k), offof(k), len(k)))
+//@   fresh result0
+//@   modifies nothing
